@@ -438,6 +438,6 @@ pub fn run(g: &mut Global) {
     g.random("random", g.tier.pick(20000, 100000), &move || strategy(cap, maxops), &check);
     g.random("ties_and_roundtrips", g.tier.pick(60000, 600000), &tie_strategy, &check);
     if g.tier == Tier::Thorough {
-        g.fuzz_stage("ops_total", None, 5_000_000, "random", &|b| crate::fuzzdec::decode_c12(b), &check);
+        g.fuzz_stage("ops_total", None, 2_000_000, "random", &|b| crate::fuzzdec::decode_c12(b), &check);
     }
 }
